@@ -160,8 +160,10 @@ class Run:
                     # the first rule of the generated file is this group's entry: parse WITHOUT the Entrypoint option
                     plan += [[0, ii, noentry_oi] for ii in sorted({p_[0] for p_ in plan_for(g)})]
             self.plans[v.vi] = plan
-            dbg = os.path.join(v.dir, "debug.txt") if any(options[p_[2]]["debug"] for p_ in plan) and getattr(self, "keep_debug", False) else None
-            return v.run(inputs, options, plan, timeout_ms=timeout_ms, debug_out=dbg)
+            ndbg = sum(1 for p_ in plan if options[p_[2]]["debug"])
+            dbg = os.path.join(v.dir, "debug.txt") if ndbg and getattr(self, "keep_debug", False) else None
+            # only a bounded sample of the Debug traces is kept on disk (a trace can be thousands of lines)
+            return v.run(inputs, options, plan, timeout_ms=timeout_ms, debug_out=dbg, debug_keep=(ndbg // 2500 + 1) if ndbg > 2500 else 0)
         obs = P.parallel(run, variants)
         self.obs = obs
         st = dict(parses=0, matched=0, with_errors=0, no_match=0, budget=0, panic_escaped=0, with_events=0, not_ok_status=0)
